@@ -85,6 +85,11 @@ pub fn roundtrip<F: Family>(p: &F::Packet, ctx: &mut Ctx) -> CaseResult {
     match r {
         Ok(q) => {
             ensure!(q == *p, "async decode returned a different packet: {} (original {})", fam::render(&q), fam::render(p));
+            // equality by the harness' own wire-level projection as well, so that the oracle does not rest on the
+            // library's PartialEq alone
+            if bytes.len() <= 1 << 20 {
+                ensure!(F::project(&q) == F::project(p), "async decode returned a packet that the library calls equal but whose field values differ: {} (original {})", fam::render(&q), fam::render(p));
+            }
             ensure!(consumed == bytes.len(), "async decode consumed {} of {} bytes", consumed, bytes.len());
         }
         Err(e) => viol!("async decode of the encoding failed: {:?}; packet {} bytes {}", e, fam::render(p), hex_short(bytes, 64)),
@@ -94,6 +99,9 @@ pub fn roundtrip<F: Family>(p: &F::Packet, ctx: &mut Ctx) -> CaseResult {
     match run.result {
         Ok(ok) => {
             ensure!(ok.pkt == *p, "poll decode returned a different packet: {} (original {})", fam::render(&ok.pkt), fam::render(p));
+            if bytes.len() <= 1 << 20 {
+                ensure!(F::project(&ok.pkt) == F::project(p), "poll decode returned a packet that the library calls equal but whose field values differ: {} (original {})", fam::render(&ok.pkt), fam::render(p));
+            }
             ensure!(ok.total == bytes.len(), "poll decode reports total {} for an encoding of {} bytes; packet {}", ok.total, bytes.len(), fam::render(p));
             ensure!(ok.body == bytes[hl..], "poll decode handed back a body of {} bytes that differs from the {} encoded body bytes", ok.body.len(), bytes.len() - hl);
             ensure!(run.pos == bytes.len(), "poll decode consumed {} of {} bytes", run.pos, bytes.len());
